@@ -654,5 +654,195 @@ theorem nthBack_spec (K : CKernel) (it : Iter) (hi : it.Inv) (n : Nat) :
       rw [e1, e2]
       exact hloop _
 
+/-! ### `advance_to` (iter.rs:38-93) -/
+
+theorem mid_hi (K : CKernel) (cs : List Container) (hc : ∀ c ∈ cs, c.IterOK) (x : Nat) (h : x ∈ mid cs) :
+    ∃ c ∈ cs, x / 65536 = c.key := by
+  simp only [mid, List.mem_flatMap] at h
+  obtain ⟨c, hc', hx⟩ := h
+  obtain ⟨k1, k2, _⟩ := K.ofContainer c (hc c hc')
+  rw [← k2] at hx
+  exact ⟨c, hc', K.rem_hi _ k1 x hx⟩
+
+theorem orem_hi (K : CKernel) (o : Option CIter) (ho : ∀ c, o = some c → c.Inv) (x : Nat) (h : x ∈ orem o) :
+    ∃ c, o = some c ∧ x / 65536 = c.key := by
+  cases o with
+  | none => simp [orem] at h
+  | some c => exact ⟨c, rfl, K.rem_hi c (ho c rfl) x h⟩
+
+/-- splitting a key-sorted chunk list at the binary-search position -/
+theorem split_at_search (cs : List Container) (key : Nat) (hs : SortedLt (cs.map (·.key))) :
+    (∀ c ∈ cs.take (cs.takeWhile (fun c => decide (c.key < key))).length, c.key < key) ∧
+    (∀ c ∈ cs.drop (cs.takeWhile (fun c => decide (c.key < key))).length, key ≤ c.key) := by
+  induction cs with
+  | nil => simp
+  | cons c cs ih =>
+    have hs' : SortedLt (cs.map (·.key)) := (List.pairwise_cons.mp hs).2
+    by_cases h : c.key < key
+    · simp only [List.takeWhile_cons, h, decide_true, ↓reduceIte, List.length_cons, List.take_succ_cons,
+        List.mem_cons, List.drop_succ_cons]
+      have := ih hs'
+      refine ⟨?_, this.2⟩
+      rintro d (rfl | hd)
+      · exact h
+      · exact this.1 d hd
+    · simp only [List.takeWhile_cons, h, decide_false, List.length_nil, List.take_zero, List.drop_zero]
+      refine ⟨by simp, ?_⟩
+      intro d hd
+      have hs2 : SortedLt (c.key :: cs.map (·.key)) := hs
+      rcases List.mem_cons.mp hd with rfl | hd
+      · omega
+      · have := (List.pairwise_cons.mp hs2).1 d.key (List.mem_map_of_mem hd); omega
+
+theorem mid_split (cs : List Container) (loc : Nat) : mid cs = mid (cs.take loc) ++ mid (cs.drop loc) := by
+  rw [← mid_append, List.take_append_drop]
+
+theorem advanceToRest_spec (K : CKernel) (it : Iter) (hi : it.Inv) (n : Nat) (hf : it.front = none) :
+    (advanceToRest it (n / 65536) (n % 65536)).rem = it.rem.filter (fun x => decide (n ≤ x)) ∧
+    (advanceToRest it (n / 65536) (n % 65536)).Inv := by
+  have hidx : n % 65536 < 65536 := Nat.mod_lt _ (by omega)
+  obtain ⟨hlt, hge⟩ := split_at_search it.containers (n / 65536) hi.sorted
+  have hcok_take : ∀ k, ∀ c ∈ it.containers.take k, c.IterOK := fun k c hc => hi.cok c (List.mem_of_mem_take hc)
+  have hcok_drop : ∀ k, ∀ c ∈ it.containers.drop k, c.IterOK := fun k c hc => hi.cok c (List.mem_of_mem_drop hc)
+  -- the chunks before the search position are entirely below n
+  have hdrop_pre : (mid (it.containers.take (it.containers.takeWhile (fun c => decide (c.key < n / 65536))).length)).filter
+      (fun x => decide (n ≤ x)) = [] := by
+    apply filterGE_drop
+    intro x hx
+    obtain ⟨c, hc, hxc⟩ := mid_hi K _ (hcok_take _) x hx
+    have := hlt c hc; omega
+  have hsorted_drop : ∀ k, SortedLt ((it.containers.drop k).map (·.key)) := by
+    intro k; rw [List.map_drop]; exact List.Pairwise.sublist (List.drop_sublist _ _) hi.sorted
+  have hback_hi : ∀ b, it.back = some b → ∀ x ∈ b.rem, x / 65536 = b.key :=
+    fun b hb x hx => K.rem_hi b (hi.bi b hb) x hx
+  unfold advanceToRest Bitmap.search
+  simp only []
+  generalize hloc : (it.containers.takeWhile (fun c => decide (c.key < n / 65536))).length = loc at *
+  cases hget : it.containers[loc]? with
+  | none =>
+    -- every chunk is below the target key
+    have hlen : it.containers.length ≤ loc := by simpa using hget
+    have htake : it.containers.take loc = it.containers := List.take_of_length_le hlen
+    have hloc_eq : loc = it.containers.length := by
+      have : loc ≤ it.containers.length := by rw [← hloc]; exact (List.takeWhile_sublist _).length_le
+      omega
+    rw [htake] at hdrop_pre
+    simp only [hloc_eq, ne_eq, not_true_eq_false, ↓reduceIte, List.drop_length]
+    cases hb : it.back with
+    | none =>
+      simp only [Iter.rem, hf, hb, orem_none, mid_nil, List.append_nil, List.nil_append]
+      exact ⟨hdrop_pre.symm, ⟨by simp [SortedLt], by simp, by simp, by simp, by simp, by simp, by simp⟩⟩
+    | some b =>
+      simp only []
+      have hbi := hi.bi b hb
+      by_cases c1 : n / 65536 < b.key
+      · simp only [c1, ↓reduceIte, Iter.rem, hf, hb, orem_none, orem_some, mid_nil, List.nil_append,
+          List.filter_append]
+        rw [hdrop_pre]
+        refine ⟨?_, ⟨by simp [SortedLt], by simp, by simp, ?_, by simp, by simp, by simp⟩⟩
+        · simp only [List.nil_append]
+          symm; apply filterGE_keep
+          intro x hx; have := hback_hi b hb x hx; omega
+        · intro b' hb'; simp only [Option.some.injEq] at hb'; subst hb'; exact hbi
+      · simp only [c1, ↓reduceIte]
+        obtain ⟨a1, a2, a3⟩ := K.advanceTo b (n % 65536) hbi hidx
+        by_cases c2 : n / 65536 = b.key
+        · simp only [c2, ↓reduceIte, Iter.rem, hf, hb, orem_none, orem_some, mid_nil, List.nil_append,
+            List.filter_append]
+          rw [hdrop_pre, a1]
+          have : b.key * 65536 + n % 65536 = n := by omega
+          rw [this]
+          refine ⟨by simp, ⟨by simp [SortedLt], by simp, by simp, ?_, by simp, by simp, by simp⟩⟩
+          intro b' hb'; simp only [Option.some.injEq] at hb'; subst hb'; exact a2
+        · simp only [c2, ↓reduceIte, Iter.rem, hf, hb, orem_none, orem_some, mid_nil, List.nil_append,
+            List.filter_append]
+          rw [hdrop_pre]
+          refine ⟨?_, ⟨by simp [SortedLt], by simp, by simp, by simp, by simp, by simp, by simp⟩⟩
+          simp only [List.nil_append, List.append_nil]
+          symm; apply filterGE_drop
+          intro x hx; have := hback_hi b hb x hx; omega
+  | some c =>
+    have hlen : loc < it.containers.length := by
+      rcases Nat.lt_or_ge loc it.containers.length with h | h
+      · exact h
+      · rw [List.getElem?_eq_none h] at hget; cases hget
+    have hcmem : c ∈ it.containers := List.mem_of_getElem? hget
+    have hdropc : it.containers.drop loc = c :: it.containers.drop (loc + 1) := by
+      rw [List.drop_eq_getElem_cons hlen]
+      congr 1
+      rw [List.getElem?_eq_getElem hlen] at hget; exact Option.some.inj hget
+    have hcge : n / 65536 ≤ c.key := hge c (by rw [hdropc]; simp)
+    have htail : ∀ d ∈ it.containers.drop (loc + 1), c.key < d.key := by
+      intro d hd
+      have := hsorted_drop loc
+      rw [hdropc] at this
+      exact (List.pairwise_cons.mp this).1 d.key (List.mem_map_of_mem hd)
+    have hkeep_tail : (mid (it.containers.drop (loc + 1))).filter (fun x => decide (n ≤ x)) =
+        mid (it.containers.drop (loc + 1)) := by
+      apply filterGE_keep
+      intro x hx
+      obtain ⟨d, hd, hxd⟩ := mid_hi K _ (hcok_drop _) x hx
+      have := htail d hd; omega
+    have hb_keep : (orem it.back).filter (fun x => decide (n ≤ x)) = orem it.back := by
+      apply filterGE_keep
+      intro x hx
+      obtain ⟨b, hb, hxb⟩ := orem_hi K it.back hi.bi x hx
+      have h2 := hi.bk b hb c hcmem
+      omega
+    have hrem_split : it.rem = mid (it.containers.take loc) ++ (c.elems ++ mid (it.containers.drop (loc+1))) ++ orem it.back := by
+      simp only [Iter.rem, hf, orem_none, List.nil_append]
+      rw [mid_split it.containers loc, hdropc, mid_cons]
+    obtain ⟨k1, k2, _⟩ := K.ofContainer c (hi.cok c hcmem)
+    by_cases hk : c.key = n / 65536
+    · -- Ok(loc): this chunk becomes the front iterator
+      simp only [hk, beq_self_eq_true]
+      simp only [hget]
+      obtain ⟨a1, a2, a3⟩ := K.advanceTo (CIter.ofContainer c) (n % 65536) k1 hidx
+      refine ⟨?_, ?_⟩
+      · rw [hrem_split]
+        simp only [Iter.rem, orem_some, List.filter_append]
+        rw [hdrop_pre, hkeep_tail, hb_keep, a1, k2]
+        have : (CIter.ofContainer c).key * 65536 + n % 65536 = n := by
+          show c.key * 65536 + n % 65536 = n
+          omega
+        rw [this]; simp
+      · refine ⟨hsorted_drop _, hcok_drop _, ?_, hi.bi, ?_, ?_, ?_⟩
+        · intro f hf'; simp only [Option.some.injEq] at hf'; subst hf'; exact a2
+        · intro f hf' d hd
+          simp only [Option.some.injEq] at hf'
+          subst hf'
+          rw [a3]; exact htail d hd
+        · intro b hb d hd
+          exact hi.bk b hb d (List.mem_of_mem_drop hd)
+        · intro f b hf' hb
+          simp only [Option.some.injEq] at hf'
+          subst hf'
+          rw [a3]
+          exact hi.bk b hb c hcmem
+    · -- Err(loc) with chunks of larger keys still ahead: nothing more to trim
+      have hk' : n / 65536 < c.key := by omega
+      have hne : (c.key == n / 65536) = false := by simp [hk]
+      have hlne : loc ≠ it.containers.length := by omega
+      simp only [hne, hlne, ne_eq, not_false_eq_true, ↓reduceIte]
+      refine ⟨?_, ?_⟩
+      · simp only [Iter.rem, hf, orem_none, List.nil_append]
+        rw [mid_split it.containers loc]
+        simp only [List.filter_append]
+        rw [hdrop_pre, hb_keep]
+        have h1 : (mid (it.containers.drop loc)).filter (fun x => decide (n ≤ x)) = mid (it.containers.drop loc) := by
+          apply filterGE_keep
+          intro x hx
+          obtain ⟨d, hd, hxd⟩ := mid_hi K _ (hcok_drop _) x hx
+          have : c.key ≤ d.key := by
+            rw [hdropc] at hd
+            rcases List.mem_cons.mp hd with rfl | hd
+            · omega
+            · have := htail d hd; omega
+          omega
+        rw [h1]; simp
+      · refine ⟨hsorted_drop _, hcok_drop _, by simp [hf], hi.bi, by simp [hf], ?_, by simp [hf]⟩
+        intro b hb d hd
+        exact hi.bk b hb d (List.mem_of_mem_drop hd)
+
 end Iter
 end Roaring
